@@ -11,7 +11,7 @@ import ast
 from ..astutil import calls, names_in, text, walk_no_nested
 from ..index import AnalysisError
 from ..report import Ctx
-from .common import call_nodes, cfg_of, guards, is_reporter_call
+from .common import call_nodes, cfg_of, fixed_value_space_rule, guards, is_reporter_call
 
 AG = 'xmlschema.validators.attributes.XsdAttributeGroup'
 ALLOWED_BINDINGS = {
@@ -274,10 +274,25 @@ def rule_e(ctx: Ctx) -> None:
     ctx.explain('C03.e: result extensions outside the attribute loop are control dependent on context.fill_missing.')
 
 
+def rule_f(ctx: Ctx) -> None:
+    rule = 'C03.f'
+    f = ctx.idx.func('xmlschema.validators.attributes.XsdAttribute.raw_decode')
+    fixed_value_space_rule(ctx, rule, f, 'XsdAttribute.raw_decode', ('obj',))
+    # an absent attribute takes the fixed value; the value is then validated by the declared type
+    g = cfg_of(ctx, f)
+    sets = [n for n in g.nodes if n.kind == 'stmt' and isinstance(n.ast, ast.Assign) and text(n.ast.targets[0]) == 'obj' and text(n.ast.value) == 'self.fixed']
+    ok = bool(sets) and all(('obj is None', 'T') in guards(ctx, f, n) and ('self.fixed is not None', 'T') in guards(ctx, f, n) for n in sets)
+    ctx.ob(rule, 'XsdAttribute.raw_decode: an absent attribute takes the fixed value', f.loc(), ok, '', key='XsdAttribute.raw_decode|fixed-default')
+    dec = call_nodes(g, lambda c: text(c.func) == 'self.type.raw_decode')
+    ok = bool(dec) and all([text(a) for a in c.args] == ['obj', 'validation', 'context'] for n, c in dec)
+    ctx.ob(rule, 'XsdAttribute.raw_decode: the value is validated by the declared type in the caller\'s mode', f.loc(), ok, '', key='XsdAttribute.raw_decode|type-decode')
+    ctx.explain('C03.f: the fixed-value report of XsdAttribute.raw_decode is guarded by a comparison of decoded values.')
+
+
 def thorough(ctx: Ctx) -> None:
     _undeclared(ctx, 'C03.a+', 'raw_encode', 4)
     _required(ctx, 'C03.b+', 'raw_encode')
 
 
-RULES = [rule_a, rule_b, rule_c, rule_d, rule_e]
+RULES = [rule_a, rule_b, rule_c, rule_d, rule_e, rule_f]
 THOROUGH = [thorough]
